@@ -145,8 +145,9 @@ def run(ctx):
     for k, hist in enumerate(cases):
         if any(op["op"] == "load" for op in hist):
             for op in hist:
-                v = op["val"]["n"]
-                loads.append({"nm": v // 10, "nd": v % 10, "k": k})
+                if op["op"] == "load":
+                    v = op["val"]["n"]
+                    loads.append({"nm": v // 10, "nd": v % 10, "k": k})
             continue
         if any(op["key"] not in settings.leaves_of("ccd") or op["key"][0] != "detector" for op in hist):
             continue
@@ -154,6 +155,9 @@ def run(ctx):
             ok = all(op["key"] in settings.leaves_of(kind) for op in hist)
             # named deviation: geometry.row/col cannot be swept (containers keep their size)
             ok = ok and not any(op["path"] == "sweep" and op["key"][-1] in ("row", "col") for op in hist)
+            # same deviation through a history: row/col changed on the caller's detector, then a pipeline runs
+            ok = ok and not any(a["path"] in ("override", "setattr") and a["key"][-1] in ("row", "col") and b["path"] == "sweep"
+                                for i, a in enumerate(hist) for b in hist[i + 1:])
             if ok:
                 jobs.append({"kind": kind, "ops": copy.deepcopy(hist)})
     traces = check.pmap(settings.run_history, jobs, chunksize=20)
